@@ -52,6 +52,7 @@ type HandlerObs struct {
 	HasDeadline bool
 	Deadline   time.Duration // relative to run start
 	Arg2OK, Arg3OK bool
+	ArgsRead   bool // the handler read both arguments to the end without error
 	ReadErr    error
 	RespErr    error
 	CtxDoneAt  time.Duration // 0 = not observed
@@ -83,6 +84,19 @@ type CallRec struct {
 	wantRes2, wantRes3 []byte
 	Cancelled bool
 	CancelAt  time.Duration
+	Appended  bool // a relay host appended key/values to arg2
+}
+
+// completedNormally: the call ended with its response or with the error its
+// handler sent (not with a timeout, cancellation, or transport/relay failure).
+func (c *CallRec) completedNormally() bool {
+	if c.Err == nil {
+		return true
+	}
+	if se, ok := c.Err.(tchannel.SystemError); ok && c.Spec.Mode == "syserr" {
+		return int(se.Code()) == c.Spec.Code && se.Message() == c.Spec.Msg && c.H.Entered
+	}
+	return false
 }
 
 func (c *CallRec) cmd() string {
@@ -489,6 +503,7 @@ func (h *echoHandler) Handle(ctx context.Context, call *tchannel.InboundCall) {
 		obs.ReadErr = err
 		return
 	}
+	obs.ArgsRead = true
 	if rec != nil {
 		obs.Arg2OK = bytes.Equal(a2, rec.Req2Dest)
 		obs.Arg3OK = bytes.Equal(a3, rec.Req3)
